@@ -72,3 +72,6 @@ M("c09-adapter-release-skips-unmaterialised", "C09", SYNC, "LockAdapter.release"
 M("c09-cic-yields-past-shield", "C09", A, "AsyncIOBackend.checkpoint_if_cancelled",
   "            elif cancel_scope.shield:\n                break\n            else:\n                cancel_scope = cancel_scope._parent_scope",
   "            elif cancel_scope.shield and cancel_scope is _task_states[task].cancel_scope:\n                break\n            else:\n                cancel_scope = cancel_scope._parent_scope", ["R09-h"])
+
+# from seeded change C09/e (round 3): the cancelled waiter removes something else than what it queued
+M("c09-cancelled-waiter-removes-wrong-object", "C09", A, "Lock.acquire", "                    self._waiters.remove(item)", "                    self._waiters.remove(fut)", ["R09-d"])
